@@ -55,9 +55,9 @@ P = {
  "C17": ("fault_enumeration", "exhaustive allocation-failure enumeration (every index, pairs) with ledger allocator",
          "For every input of the alphabet, every allocation index is failed in turn (single, persistent, pairs) on the real code through the library's own H3_ALLOC_PREFIX seam; the ledger allocator decides leaks/double frees and the result code.",
          "Inputs outside the alphabet not explored.", "4-C17"),
- "C18": ("model_checking", "preemption-bounded schedule enumeration + write-trap + history pairs",
-         "All schedules with <=2 preemptions of all call pairs of an alphabet under a cooperative scheduler on real threads; write-trap on every library-owned writable byte; all ordered call pairs for history independence; free-running TSan pass.",
-         "Scheduling points are call boundaries and allocator entries (justified by the write-trap).", "4-C18"),
+ "C18": ("model_checking", "stateless preemption-bounded schedule enumeration on real threads (cooperative scheduler, function-entry granularity) + write-trap on library static storage + history pairs; supporting free-running ThreadSanitizer pass",
+         "Three binaries from /repo's working tree. (1) write-trap: the library's .data/.bss are renamed, page-bracketed and mprotect(PROT_READ)-ed while a broad product of workloads covering every exported function runs: any write to library-owned static storage is a violation. (2) scheduler: library compiled with -finstrument-functions; every library function entry and allocator call is a scheduling point; stateless DFS over ALL schedules with <=1 preemption of every pair of a 58-call alphabet at fine granularity (covers every state and transition of the product of the two point sequences), <=2 at API/allocator granularity and for small pairs at fine granularity, core triples on three threads, and allocation-fault x schedule; every execution runs to completion on the real code and each thread's serialised outputs must be byte-identical to the sequential reference; library static storage is hashed at every choice point; the ledger must be empty. (3) history: all ordered call pairs, q after p == q in a fresh process, with heap/stack poisoning. (4) supporting: free-running threads under ThreadSanitizer; undefined symbols vs a deny-list of non-re-entrant libc functions.",
+         "Preemption is explored at function-entry granularity (strided for long calls), not at instruction granularity; the write-trap (no library-owned byte is ever written) is what makes this reduction sound. More than 3 threads only in the TSan pass.", "4-C18"),
  "C19": ("model_checking", "complete enumeration vs nearest-face classification",
          "Every cell of complete coarse resolutions, the families and two rings around all icosahedron edges: reported faces between must and may sets derived from nearest face centre of sample points.",
          "Face-centre table cross-checked against geometry at start-up.", "4-C19"),
